@@ -7,7 +7,7 @@ RULE = ("`vcd <opts> <vars> <realmap> <body>`: a generated header + the body byt
         "the spec is the token interpreter + Spec.run (canon). Generator: dense/offset/sparse/long/weird identifier codes (direct and hashed lookup), aliases, "
         "widths 1..4096, scalar/vector/real/string syntaxes in both cases, shortened vectors, 0b prefix, LF/CRLF/tabs/blank lines, free-form and "
         "line-disciplined layouts, $dumpvars/$dumpoff/$dumpon/$comment blocks, values before the first timestamp, repeated/backwards timestamps, "
-        "redundant writes; plus a malformed stream (spec not applicable, err/panic class compared with the model). "
+        "redundant writes, files that end directly after their last token or with a bare last timestamp (end-of-input flush); plus a malformed stream (spec not applicable, err/panic class compared with the model). "
         "non-trivial = some change loaded; distinct = distinct (request, reply)")
 
 
